@@ -51,7 +51,7 @@ func TestVerifApply(t *testing.T) {
 		uc := vs.DeepCopy(update).(map[string]interface{})
 		res, errS, panicS := safeApply(orig, update)
 		line := vs.M{"kind": "apply", "case": i, "seed": seed, "orig": vs.CanonObj(oc), "update": vs.CanonObj(uc),
-			"out": applyOutcome(res, errS, panicS), "origPure": reflect.DeepEqual(orig, oc)}
+			"out": applyOutcome(res, errS, panicS), "origPure": reflect.DeepEqual(orig, oc), "updatePure": reflect.DeepEqual(update, uc)}
 		if errS == "" && panicS == "" {
 			line["equal"] = DeepEqual(res, oc)
 			// re-apply the same desired state to the result
